@@ -34,6 +34,11 @@ def build_pool(G):
             pool[(kind, "s1")] = C.build(G, kind, specs[1 % len(specs)], dtype=float, scale=(0, -2.0))
         else:
             pool[(kind, "s1")] = C.build(G, kind, specs[1 % len(specs)])
+        if kind in ("P2", "P3"):
+            # a float representative that is ALREADY normalised (weight exactly 1, not of unit length): the library's
+            # normalisation shortcuts hand out the operand's own array for these (round 14, R14b_c)
+            pool[(kind, "s2")] = C.build(G, kind, specs[0], dtype=float)
+            pool[(kind, "s3")] = C.build(G, kind, next(sp for sp in specs if sp[-1] == 0), dtype=float)
         if kind in C.COLLECTABLE:
             pool[(kind, "c")] = C.build_collection(G, kind, [specs[i % len(specs)] for i in range(3)], (3,))
     return pool
@@ -107,6 +112,11 @@ def actions():
             k = len(choices)
             combos = [tuple(c[i % 2 if pat == 2 else (i + 1) % 2 if pat == 3 else pat] if len(c) > 1 else c[0] for i, c in enumerate(choices)) for pat in (0, 1, 2, 3)]
             combos = list(dict.fromkeys(combos))
+        if any(k in ("P2", "P3") for k in op.kinds):
+            for tag in ("s2", "s3"):
+                extra = tuple((k, tag) if k in ("P2", "P3") else c[0] for k, c in zip(op.kinds, choices))
+                if op.configs is None or tag == "s2":
+                    combos.append(extra)
         for combo in combos:
             acts.append((op.name, combo))
         if op.coll and all(k in C.COLLECTABLE for k in op.kinds):
